@@ -107,6 +107,8 @@ class Engine:
         self.macros = spec_macros or {}    # name -> (param names, expr string)
         self.globals_ = globals_ or {}     # name -> python constant (int/float/str/list of str)
         self.ev = Evaluator(self)
+        self.funcs = {}
+        self.axioms = []
         self.obls = []
         self.prune = prune
         self._solver = z3.Solver()
@@ -340,7 +342,15 @@ class Engine:
                     ctx.assume(x)
                 ctx.exc(cls, g, line)
         rty = c.ty(c.returns)
-        res, wf = self.fresh_value('ret_' + q.split(':')[1], rty)
+        if c.d.get('pure'):
+            # a pure callee (no side effects, deterministic -- its frame contract is C08's): the result is an
+            # uninterpreted FUNCTION of the arguments, so equal arguments give the same result term
+            f_ = z3.Function('pure_' + q.split(':')[1].replace('@', '_').replace('.', '_'),
+                             *([env[nm].ty.sort() for nm in names] + [rty.sort()]))
+            res = V(rty, f_(*[env[nm].t for nm in names]))
+            wf = self.wf(res)
+        else:
+            res, wf = self.fresh_value('ret_' + q.split(':')[1].replace('@', '_'), rty)
         for x in wf:
             ctx.assume(x)
         env2 = dict(env)
@@ -412,6 +422,20 @@ class Engine:
         if name == 'real':
             v = ev.ev(n.args[0], ctx)
             return V(REAL, to_real(v))
+        if name == 'sumto':
+            lst = ev.ev(n.args[0], ctx)
+            k = ev.ev(n.args[1], ctx)
+            return self.list_sum(lst, to_int(k), ctx)
+        if name in self.funcs:
+            argtys, rty = self.funcs[name]
+            argtys = [parse_type(a, self.aliases) for a in argtys]
+            rty = parse_type(rty, self.aliases)
+            f_ = z3.Function('spec_' + name, *([a.sort() for a in argtys] + [rty.sort()]))
+            args = [coerce(ev.ev(a, ctx), ty).t for a, ty in zip(n.args, argtys)]
+            return V(rty, f_(*args))
+        q_ = self.resolve(name)
+        if q_ and self.contracts[q_].d.get('pure'):
+            return self.call_contract(q_, n, ctx, ev)
         if name in self.macros:
             params, text = self.macros[name]
             args = [ev.ev(a, ctx) for a in n.args]
@@ -527,6 +551,8 @@ class Engine:
         v = ev.ev(n.args[0], ctx)
         tn = ast.unparse(n.args[1])
         table = {'int': INT, 'float': REAL, 'str': STR, 'bool': BOOL}
+        if isinstance(v.ty, TAbs):
+            return mk_bool(tn == v.ty.name)
         if tn in table:
             ty = v.ty
             if isinstance(ty, TOpt):
@@ -537,7 +563,21 @@ class Engine:
         raise OutOfSubset(f'isinstance {tn}')
 
     def bi_sum(self, n, ctx, ev):
-        raise OutOfSubset('sum')
+        v = ev.ev(n.args[0], ctx)
+        if isinstance(v.ty, TList) and v.ty.elem in (INT, REAL):
+            return self.list_sum(v, list_len(v), ctx)
+        raise OutOfSubset(f'sum({v.ty})')
+
+    def list_sum(self, lst, upto, ctx):
+        """SUM(lst, k) = lst[0]+..+lst[k-1]: recursive spec function, defining axioms added for this list term"""
+        et = lst.ty.elem
+        f = z3.Function('SUM_' + et.name, lst.ty.sort(), z3.IntSort(), et.sort())
+        k = fresh('k', z3.IntSort())
+        zero = z3.IntVal(0) if et == INT else z3.RealVal(0)
+        ctx.assume(f(lst.t, 0) == zero)
+        ctx.assume(z3.ForAll([k], z3.Implies(k >= 0, f(lst.t, k + 1) == f(lst.t, k) + z3.Select(lst.ty.arr(lst.t), k))))
+        self.libs_used.add('SPEC-SUM: sum(list) is the recursive left fold SUM(l,0)=0, SUM(l,k+1)=SUM(l,k)+l[k]')
+        return V(et, f(lst.t, upto))
 
     def bi_float(self, n, ctx, ev):
         v = ev.unwrap_opt(ev.ev(n.args[0], ctx), ctx)
